@@ -19,26 +19,40 @@ def patches():
     return out
 
 
-def prepare(sel):
+def prepare(sel, jobs=4):
+    import threading
     m = json.load(open(MAP)) if os.path.exists(MAP) else {}
-    env0 = dict(os.environ, VERIF_FACTS_KEEP="400")
-    for name, p in patches():
-        if sel and sel not in name:
-            continue
-        if name in m and os.path.exists(os.path.join(m[name], "OK")):
-            continue
+    todo = [(name, p) for name, p in patches() if (not sel or sel in name) and not (name in m and os.path.exists(os.path.join(m[name], "OK")))]
+    mu = threading.Lock()
+    slots = list(range(1, jobs + 1))
+
+    def work(item):
+        with mu:
+            slot = slots.pop()
+        try:
+            _prepare_one(item[0], item[1], m, mu, dict(os.environ, VERIF_FACTS_KEEP="400", VERIF_TARGET_SLOT="-s%d" % slot))
+        finally:
+            with mu:
+                slots.append(slot)
+    with cf.ThreadPoolExecutor(jobs) as ex:
+        list(ex.map(work, todo))
+
+
+def _prepare_one(name, p, m, mu, env0):
+    if True:
         scratch = tempfile.mkdtemp(prefix="grineval.")
         try:
             subprocess.check_call(["rsync", "-a", "--exclude", "target", "--exclude", ".git", "/repo/", scratch + "/"])
             r = subprocess.run(["patch", "-p1", "-s", "-i", p], cwd=scratch, stdout=subprocess.PIPE, stderr=subprocess.STDOUT, text=True)
             if r.returncode != 0:
-                print(name, "DOES NOT APPLY"); continue
+                print(name, "DOES NOT APPLY"); return
             o = subprocess.run([sys.executable, os.path.join(V, "engine", "grinlint", "extract.py"), "debug"], env=dict(env0, VERIF_REPO=scratch), stdout=subprocess.PIPE, stderr=subprocess.STDOUT, text=True)
             last = o.stdout.strip().splitlines()[-1] if o.stdout.strip() else ""
             if o.returncode != 0 or not last.startswith("/"):
-                print(name, "EXTRACTION FAILED", o.stdout[-400:]); continue
-            m[name] = last.split()[0]
-            json.dump(m, open(MAP, "w"), indent=1)
+                print(name, "EXTRACTION FAILED", o.stdout[-400:]); return
+            with mu:
+                m[name] = last.split()[0]
+                json.dump(m, open(MAP, "w"), indent=1)
             print(name, m[name], flush=True)
         finally:
             shutil.rmtree(scratch, ignore_errors=True)
